@@ -9,8 +9,9 @@ SPEC = dict(
           "registered iterators (forward/backward, GetIterator/GetIteratorAt/copies) judged by the iterator oracle (a)-(d) of DESIGN.md C09 "
           "(entry = insertion generation; scratch copy allowed until one advance; SwapContents followed); key types uint32 / String / a "
           "key class whose HashCode() has 3 values; value type uint32 or an owning instrumented type whose live payload count must equal "
-          "the model's at the end of the case.  ordered leg: OrderedKeysHashtable / OrderedValuesHashtable, contents + sortedness whenever "
-          "documented.  A case is non-trivial when its population exceeded the initial capacity and at least one traversal under the "
+          "the model's at the end of the case.  ordered leg: OrderedKeysHashtable / OrderedValuesHashtable with phases of auto-sort off and manual Move*: contents, "
+          "exact order (no operation but the documented re-sorting ones and moves may change the relative order of surviving entries, "
+          "in particular no re-allocation), sortedness whenever documented.  A case is non-trivial when its population exceeded the initial capacity and at least one traversal under the "
           "(b)/(c) rules completed (boundary leg: at least one index-width change happened); distinct = distinct (seed, case) histories"),
     assumptions=['the reference semantics written from the doc comments of Hashtable.h / HashtableIterator.h are the specification',
                  'the order among equal sort keys (SortByValue, auto-sorting tables) is unspecified: any sorted order is accepted',
@@ -19,28 +20,29 @@ SPEC = dict(
                  'g++ 12 ASan/UBSan/LSan and valgrind memcheck report what they claim to report'],
     legs=[
         Leg('regress', 'h_hashtable', 'asan', opts={'mode': 'regress'}, quick=1, thorough=1, workers=1, leaks=True, min_cases=1),
-        Leg('ops', 'h_hashtable', 'asan', opts={'mode': 'ops'}, quick=24000, thorough=2000000, workers=16, leaks=True),
-        Leg('boundary', 'h_hashtable', 'asan', opts={'mode': 'boundary', 'big_every': '8'}, quick=800, thorough=40000, workers=16, leaks=True, cpu_budget=120.0),
-        Leg('ordered', 'h_hashtable', 'asan', opts={'mode': 'ordered'}, quick=6000, thorough=600000, workers=16, leaks=True),
-        Leg('surface', 'h_hashtable', 'asan', opts={'mode': 'surface'}, quick=10000, thorough=800000, workers=16, leaks=True),
-        Leg('memcheck', 'h_hashtable', 'plain', opts={'mode': 'ops'}, quick=480, thorough=9600, workers=16, valgrind=True),
-        Leg('memcheck_surface', 'h_hashtable', 'plain', opts={'mode': 'surface'}, quick=200, thorough=4000, workers=8, valgrind=True),
-        Leg('memcheck_ordered', 'h_hashtable', 'plain', opts={'mode': 'ordered'}, quick=120, thorough=2400, workers=8, valgrind=True),
-        Leg('memcheck_boundary', 'h_hashtable', 'plain', opts={'mode': 'boundary', 'big_every': '0'}, quick=12, thorough=240, workers=8, valgrind=True),
+        Leg('ops', 'h_hashtable', 'asan', opts={'mode': 'ops'}, quick=12000, thorough=1200000, workers=16, leaks=True),
+        Leg('boundary', 'h_hashtable', 'asan', opts={'mode': 'boundary', 'big_every': '20'}, quick=600, thorough=30000, workers=16, leaks=True, cpu_budget=120.0),
+        Leg('ordered', 'h_hashtable', 'asan', opts={'mode': 'ordered'}, quick=3000, thorough=300000, workers=16, leaks=True),
+        Leg('surface', 'h_hashtable', 'asan', opts={'mode': 'surface'}, quick=6000, thorough=600000, workers=16, leaks=True),
+        Leg('memcheck', 'h_hashtable', 'plain', opts={'mode': 'ops'}, quick=240, thorough=4800, workers=16, valgrind=True),
+        Leg('memcheck_surface', 'h_hashtable', 'plain', opts={'mode': 'surface'}, quick=120, thorough=2400, workers=8, valgrind=True),
+        Leg('memcheck_ordered', 'h_hashtable', 'plain', opts={'mode': 'ordered'}, quick=60, thorough=1200, workers=8, valgrind=True),
+        Leg('memcheck_boundary', 'h_hashtable', 'plain', opts={'mode': 'boundary', 'big_every': '0'}, quick=8, thorough=160, workers=8, valgrind=True),
     ],
     min_stats={
         'regress': {'regress_exact_sizes': 9},
         'ops': {'iter_traversals_completed_unreordered_under_mutation': 50000, 'reallocations_with_live_iterators': 100000,
-                'iter_detached_advanced': 10000, 'tables_destroyed_before_their_iterators': 5000, 'live_count_checks': 2000},
+                'iter_detached_advanced': 10000, 'tables_destroyed_before_their_iterators': 3000, 'live_count_checks': 1500},
         'boundary': {'idxwidth_8to16_with_live_iterators': 2000, 'idxwidth_16to8_with_live_iterators': 2000,
-                     'idxwidth_16to32_with_live_iterators': 50, 'idxwidth_32to16_with_live_iterators': 40,
+                     'idxwidth_16to32_with_live_iterators': 30, 'idxwidth_32to16_with_live_iterators': 25,
                      'population_cross_256_up': 5000, 'population_cross_256_down': 5000,
-                     'population_cross_65536_up': 200, 'population_cross_65536_down': 200,
+                     'population_cross_65536_up': 100, 'population_cross_65536_down': 100,
                      'exact_fill_255_slots': 500, 'exact_fill_256_slots': 500, 'exact_fill_65535_slots': 10, 'exact_fill_65536_slots': 10,
                      'iter_traversals_completed_unreordered_under_mutation': 1000},
-        'ordered': {'audits_sortedness_required': 1000000, 'ordered_inserts_in_the_middle': 100000,
-                    'iter_traversals_completed_unreordered_under_mutation': 10000},
-        'surface': {'op_WouldBeEqualToAfterPut': 50000, 'op_WouldBeEqualToAfterRemove': 50000, 'op_setPredicates': 50000,
-                    'op_Intersect': 50000, 'op_RemoveTable': 50000, 'op_SwapWithTable': 50000, 'pool_steps': 100000},
+        'ordered': {'audits_sortedness_required': 400000, 'ordered_inserts_in_the_middle': 30000, 'ordered_audits_while_autosort_off': 200000,
+                    'ordered_reallocs_while_unsorted': 10000, 'ordered_reallocs_while_unsorted_with_live_iterators': 5000,
+                    'ordered_exact_order_checks': 10000, 'iter_traversals_completed_unreordered_under_mutation': 8000},
+        'surface': {'op_WouldBeEqualToAfterPut': 30000, 'op_WouldBeEqualToAfterRemove': 30000, 'op_setPredicates': 30000,
+                    'op_Intersect': 30000, 'op_RemoveTable': 30000, 'op_SwapWithTable': 30000, 'pool_steps': 100000},
     },
 )
